@@ -21,6 +21,7 @@ namespace Basyx.Codec
 
 inductive EKind where
   | key | type | value | aascv
+  | other          -- any exception that is not one of the four documented kinds (IndexError, OverflowError, AssertionError, …)
 deriving Repr, DecidableEq
 
 inductive DWire where
